@@ -32,6 +32,14 @@ Definition compute_rank (l : list (rid * rule)) (nl : list (rid * bool)) : list 
 Definition auto_wf (l : list (rid * rule)) : bool :=
   let nl := compute_nul l in wf_check l nl (compute_rank l nl).
 
+(* the same with a bounded number of iteration rounds (enough when reference chains are short; the certificate is
+   CHECKED by wf_check either way, so too few rounds can only make the check fail, never pass wrongly) *)
+Definition auto_wf_n (rounds : nat) (l : list (rid * rule)) : bool :=
+  let nl := iter_nul rounds l (map (fun p => (fst p, false)) l) in
+  wf_check l nl (iter_rank rounds l (nul_of nl) (map (fun p => (fst p, 0)) l)).
+Lemma auto_wf_n_sound rounds l : auto_wf_n rounds l = true -> exists nul rank, wf nul rank (of_list l).
+Proof. unfold auto_wf_n. intros H. eexists. eexists. apply wf_check_sound. exact H. Qed.
+
 Lemma auto_wf_sound l : auto_wf l = true -> exists nul rank, wf nul rank (of_list l).
 Proof.
   unfold auto_wf. intros H. eexists. eexists. apply wf_check_sound. exact H.
